@@ -273,7 +273,7 @@ class AbsExec:
                         return len(t.items)
                 if isinstance(a, Tup):
                     return len(a.items)      # a slice the domain holds by value
-                return TOP
+                return self.domain.unknown_len(self) if hasattr(self.domain, "unknown_len") else TOP
             return TOP
         if k == "aggregate":
             ops = [self.operand(fr, o) for o in rv["ops"]]
